@@ -1614,6 +1614,11 @@ func (c *codegen) Visit(node ast.Node) ast.Visitor {
 		// Walk the expression, this could be either an Ident or SelectorExpr.
 		// This will load local whatever X is.
 		ast.Walk(c, n.X)
+		if typ := c.typeOf(n.X); typ != nil {
+			if _, ok := typ.Underlying().(*types.Map); ok {
+				c.emitNilToEmptyMap()
+			}
+		}
 		ast.Walk(c, n.Index)
 		c.emitLoadIndexed(n)
 
@@ -1981,6 +1986,15 @@ func (c *codegen) processDefers() {
 		emit.Opcodes(c.prog.BinWriter, opcode.ENDFINALLY)
 		c.setLabel(after)
 	}
+}
+
+// emitNilToEmptyMap replaces Null on top of the stack (nil map) with an empty
+// map, any other item is left as is: reading from a nil map is reading from
+// an empty one.
+func (c *codegen) emitNilToEmptyMap() {
+	emit.Opcodes(c.prog.BinWriter, opcode.DUP, opcode.ISNULL)
+	emit.Instruction(c.prog.BinWriter, opcode.JMPIFNOT, []byte{2 + 2})
+	emit.Opcodes(c.prog.BinWriter, opcode.DROP, opcode.NEWMAP)
 }
 
 // emitExplicitConvert handles `someType(someValue)` conversions between string/[]byte.
@@ -2724,6 +2738,7 @@ func (c *codegen) emitGetMapValueWithOKFlag(expr ast.Expr) {
 		typ     = c.typeOf(idxExpr.X).Underlying().(*types.Map)
 	)
 	ast.Walk(c, idxExpr.X)
+	c.emitNilToEmptyMap()
 	emit.Opcodes(c.prog.BinWriter, opcode.DUP)
 	ast.Walk(c, idxExpr.Index)
 	emit.Opcodes(c.prog.BinWriter, opcode.DUP, opcode.ROT,
